@@ -399,7 +399,7 @@ func (w *worker) execRun(spec *simrt.RunSpec, exp [][]string, first bool) *simrt
 		v.Results = res.Results
 		s.Violations++
 		w.o.emit("violation", v)
-		if w.ses.StopOnViol {
+		if w.ses.StopOnViol || s.Violations >= 6 {
 			w.stop = true
 		}
 	}
